@@ -55,7 +55,7 @@ impl DirectoryPackCreator {
         self.indexes.push(index);
     }
 
-    pub fn finalize(self) -> std::io::Result<FinalizedDirectoryPackCreator> {
+    pub fn finalize(mut self) -> std::io::Result<FinalizedDirectoryPackCreator> {
         info!("======= Finalize creation =======");
 
         info!("----- Finalize value_stores -----");
@@ -64,6 +64,11 @@ impl DirectoryPackCreator {
         }
 
         info!("----- Finalize entry_stores -----");
+        // All stores get their final order before any column is sized:
+        // an entry may refer to the position of an entry of another store.
+        for entry_store in &mut self.entry_stores {
+            entry_store.sort();
+        }
         let finalized_entry_stores: Vec<Box<dyn WritableTell>> = self
             .entry_stores
             .into_iter()
